@@ -706,8 +706,8 @@ Notes:
                     fval, x, direc1 = _linesearch_powell(cost, x, direc1, tol=xtol*100, maxiter=imax)
                     direc[bigind] = direc[-1]
                     direc[-1] = direc1
-
-           #        x = asarray(constraints(x), dtype='float64')
+                    # apply constraints
+                    x = asarray(constraints(x), dtype='float64')
 
             self._direc = direc
             self.population[0] = x   # bestSolution
